@@ -20,8 +20,8 @@ def build(tier, seed):
     cases = []
     for i in range(n):
         s = seed * 1000003 + i
-        if i % 25 == 24:
-            sc, prof = gen.gen_hostile(s * 8), "hostile"      # burst/self-dereg templates
+        if i % 12 == 11:
+            sc, prof = gen.gen_hostile(gen.hostile_seed_for(i // 12, s)), "hostile"      # burst / self-dereg / resubscribe templates
         else:
             sc, prof = gen.gen_messaging(s), "messaging"
         for m in ("loop", "dispatch"):
